@@ -96,7 +96,7 @@ def main(argv=None):
     tasks = plan_tasks(contracts, timeout_ms)
     results = []
     if tasks:
-        with mp.get_context("fork").Pool(min(a.jobs, len(tasks))) as pool:
+        with mp.get_context("fork").Pool(min(a.jobs, len(tasks)), maxtasksperchild=1) as pool:   # every task starts from the same process image: reproducible
             for r in pool.imap_unordered(_task, tasks):
                 results.append(r)
     # finite / DFA / static obligations registered for this property
